@@ -455,6 +455,28 @@ func c07units(tier string) []mc.Unit {
 			r.Bound("threshold-boundary", fmt.Sprintf("every total 2..%d x the four counts around a tenth of it x both codons of F, all answers of the draw", maxT))
 		}})
 	}
+	// (ii-d) large weights (counts from genome-scale coding sequences): tables assembled directly, every answer of the draw
+	for wi, w := range [][]int{{70000, 30000}, {65535, 1}, {65536, 65536}, {100000, 11112}, {40000, 25535}, {1 << 17, 1 << 16}} {
+		wi, w := wi, w
+		us = append(us, mc.Unit{Name: fmt.Sprintf("large-weights/%d", wi), Serial: true, Weight: (w[0] + w[1]) / 500, Run: func(r *mc.Recorder) {
+			t := deepCopyTable(codon.GetCodonTable(1))
+			cods := viewOf(t).synonyms()["F"]
+			for i := range t.AminoAcids {
+				for j := range t.AminoAcids[i].Codons {
+					for k, c := range cods {
+						if t.AminoAcids[i].Codons[j].Triplet == c {
+							t.AminoAcids[i].Codons[j].Weight = w[k]
+						}
+					}
+				}
+			}
+			n := c7judge(r, fmt.Sprintf("table 1 with F weights %v assembled directly, protein \"F\"", w), "F", t, true, true)
+			r.Eval(n)
+			r.AddStates(1)
+			r.AddNontrivial(n)
+			r.Bound("large-weights", "six pairs of weights between 2^16 and 2^18 for the two codons of F, all answers of the draw")
+		}})
+	}
 	us = append(us, historyUnit("api-histories", append(codonMenu(), c7menu()...), 2))
 	// (v) every output of the random protein generator at small lengths
 	maxGen := tier2(tier, 4, 5)
